@@ -116,8 +116,13 @@ func runC07Extra3(c *vh.Ctx) {
 					continue
 				}
 				if got != ref {
-					finding := ""
-					// F10 is about regexes whose match can be pre-empted by more input; none of the regexes above can
+					// F10's class predicate (a prefix of the input has a match, ending strictly inside it, that the whole input does not have
+					// there) also accepts the multi-byte variant: with RS="é+" a read that ends in the middle of a character hides the next
+					// "é" from the matcher, so the match is taken too short — thorough seed 7 met it in this stream
+					finding := c07Classify(c07Mode{"regex", []byte(t.to), nil}, in, "rs-mid-file")
+					if finding == "" && len(t.from) > 1 {
+						finding = c07Classify(c07Mode{"regex", []byte(t.from), nil}, in, "rs-mid-file")
+					}
 					c.Fail(vh.Failure{Kind: "oracle", What: "with RS assigned in the middle of the file, the records depend on how the input is chunked",
 						Finding: finding,
 						Case: map[string]interface{}{"stream": "rs-mid-file", "program": src, "rs_from_hex": vh.Hx([]byte(t.from)), "rs_to_hex": vh.Hx([]byte(t.to)),
